@@ -226,13 +226,20 @@ def _c11():
 
 
 def _c16():
-    hs = [
-        H("c16_access_list", "rel", "quick", "Access on a list of 0..3 items over {number, symbol, pair keyed by symbol (distinct keys), pair keyed by number, nested list} with a symbolic integer index or symbol: item k at index k, unit outside 0..n-1, value of the keyed pair or unit; never an error"),
-        H("c16_apply_list", "rel", "quick", "Apply (list <~ index / symbol), same oracle"),
-        H("c16_access_length_internal_list", "rel", "quick", "length of the same lists == n"),
-        H("c16_access_concat", "rel", "quick", "Access on the concatenation of two such lists (split point symbolic), same oracle"),
-        H("c16_access_length_internal_concat", "rel", "quick", "length of the concatenation == n"),
-    ]
+    SH = ["()", "(v)", "(k0 = v, k1 = s0)", "(v, k0 = v, s0)", "(k1 = s0, (v = k1), k0 = v)", "((v), k0 = v)"]
+    hs = []
+    ORC = "item k at index k, unit outside 0..n-1 (never an error), value of the keyed pair or unit"
+    for nm, what in (("access", "Access"), ("apply", "Apply")):
+        for sh in range(6):
+            for bn, bw in (("index", "a symbolic integer index (full i32)"), ("symbol", "a symbolic symbol (full u64)")):
+                q = (nm == "access" and sh in (0, 3, 4)) or (nm == "apply" and sh == 4)
+                hs.append(H("c16_%s_%s_list_s%d" % (nm, bn, sh), "rel", "quick" if q else "thorough", "%s on the list %s (keys k0 != k1 symbolic u64, values symbolic) with %s: %s" % (what, SH[sh], bw, ORC)))
+    for sh in range(6):
+        hs.append(H("c16_length_list_s%d" % sh, "rel", "quick" if sh in (0, 4) else "thorough", "length of the list %s == n" % SH[sh]))
+    for sh, sp in ((2, 0), (3, 1), (4, 2), (2, 2)):
+        for bn in ("index", "symbol"):
+            hs.append(H("c16_access_%s_concat_s%d_split%d" % (bn, sh, sp), "rel", "quick" if (sh, sp) in ((4, 2), (3, 1)) else "thorough", "Access by %s on the concatenation (first %d items) <> (rest) of the list %s: %s" % (bn, sp, SH[sh], ORC)))
+        hs.append(H("c16_length_concat_s%d_split%d" % (sh, sp), "rel", "quick" if (sh, sp) == (4, 2) else "thorough", "length of that concatenation == n"))
     return {
         "claim": "Through the runtime (Access, Apply, AccessLengthInternal, make_list via the corpus programs) a list of items i1..in reports length n, yields ik at index k, unit outside 0..n-1, and the value of the pair keyed by a symbol when it contains one, unit otherwise - never an error - for every mix of keyed and unkeyed items with distinct symbols, and the same for a concatenation of two such lists.",
         "functions": ["runtime/src/runtime/list.rs access_with_integer, access_with_symbol, index_list, index_concatenation_for, get_value_if_association", "runtime/src/runtime/access.rs, apply.rs, internals.rs", "traits/src/helpers/concatenation.rs iterate_concatenation_mut, iterate_rev_concatenation_mut"],
